@@ -15,6 +15,7 @@ import (
 
 	"github.com/trajectoryjp/spatial_id_go/v4/common"
 	"github.com/trajectoryjp/spatial_id_go/v4/common/enum"
+	sperrors "github.com/trajectoryjp/spatial_id_go/v4/common/errors"
 	"github.com/trajectoryjp/spatial_id_go/v4/common/object"
 	"github.com/trajectoryjp/spatial_id_go/v4/common/spatial"
 	"github.com/trajectoryjp/spatial_id_go/v4/detector"
@@ -364,6 +365,25 @@ func c19Build() (*c19Shared, []c19Inst) {
 		I("spatial.vectors", func() string {
 			a, b := spatial.Vector3{X: 1, Y: 2, Z: 3}, spatial.Vector3{X: -1, Y: -2.000001, Z: -3}
 			return fmt.Sprint(spatial.RotateBetweenVector(a, b), a.Cross(b), spatial.NewLineFromPoints(spatial.Point3(a), spatial.Point3(b)).ToPoint(0.5), spatial.NewUnitMatrix3().MulVec(a))
+		}),
+		I("remaining exported helpers (angles, points, matrices, quaternions, errors, merge building blocks)", func() string {
+			pts := []*spatial.Point3{{X: 1, Y: 2, Z: 3}, {X: -4, Y: 0.5, Z: 9}, {X: 1, Y: 2, Z: 3.0000000001}}
+			up := spatial.UniqueAppend(pts[:2], pts[2], 1e-6)
+			mxp, e1 := spatial.MaxPoint(pts, spatial.Vector3{X: 0.2, Y: -1, Z: 0.5})
+			mnp, e2 := spatial.MinPoint(pts, spatial.Vector3{X: 0.2, Y: -1, Z: 0.5})
+			m := spatial.NewMatrix3(1, 2, 3, 0, 1, 4, 5, 6, 0)
+			q := spatial.QuatFromAxisAngle(spatial.Vector3{X: 1, Y: 1}, 0.75)
+			v := spatial.NewVectorFromPoints(*pts[0], *pts[1])
+			x1, x2, y1, y2 := integrate.HorizontalZoomMinMax(5, 10, 12, 7)
+			u1 := integrate.NewUnitDividedSpatialID(s.eid, 1, 1)
+			o2, _ := object.NewExtendedSpatialID("7/25/53/5/19")
+			u2 := integrate.NewUnitDividedSpatialID(o2, 1, 1)
+			h1, h2 := integrate.NewHighSpatialID(u1, 1, 1), integrate.NewHighSpatialID(u2, 1, 1)
+			h1.Merge(h2)
+			o3, _ := object.NewExtendedSpatialID("1/0/0/1/0")
+			e3 := o3.ResetExtendedSpatialID("9/3/4/8/-2")
+			return fmt.Sprint(common.AlmostEqual(1, 1+1e-12, 1e-10), common.DegreeToRadian(33.5), common.RadianToDegree(0.77), len(up), *mxp, e1, *mnp, e2,
+				m.Mul(m), q, v, x1, x2, y1, y2, h1.IsDense(), o3.ID(), e3, o3.Higher(1, 1).ID(), sperrors.NewSpatialIdError(sperrors.InputValueErrorCode, "x"))
 		}),
 		I("object.constructors", func() string {
 			p, e1 := object.NewPoint(12.5, -33.00000000005, 7)
